@@ -141,6 +141,27 @@ def _other_ctx(rp: str | None) -> str:
     return rp[: rp.rfind(" ") + 1] + pl
 
 
+def make_wallclock(loop, kind: str):
+    """What a wall clock may legitimately do, unlike the loop's monotonic clock: "coarse" = 1 ms resolution (two calls in the same
+    millisecond read alike: Windows' ~1-16 ms granularity, a VM's frozen clock); "stepback" = after its first reading the clock is set
+    back by an hour (end of DST for the naive local time datetime.now() returns, an NTP correction), then runs on normally."""
+    import datetime as _d
+
+    base = _d.datetime(2024, 10, 27, 2, 59, 58)
+    n = [0]
+
+    class WDT(_d.datetime):
+        @classmethod
+        def now(cls, tz=None):
+            n[0] += 1
+            if kind == "coarse":
+                return base + _d.timedelta(milliseconds=int(loop.time() * 1000))
+            back = 3600 if n[0] > 1 else 0
+            return base + _d.timedelta(seconds=loop.time() - back, microseconds=n[0])
+
+    return WDT
+
+
 class Tx:
     """Duck-typed transport: only what PortProtocol needs."""
 
@@ -175,6 +196,8 @@ class QosWorld:
         self.loop = install_loop()
         self.vdt = make_clock(self.loop)
         install_clock(self.vdt)
+        if params.get("wallclock"):  # the WALL clock (naive datetime.now()) as the sender's queue sees it
+            L["F"].dt = make_wallclock(self.loop, params["wallclock"])
         t = lambda: 1704067200.0 + self.loop.time()  # noqa: E731
         L["H"].timestamp = t
         L["C"].timestamp = t
@@ -594,7 +617,7 @@ def canon(w: "QosWorld") -> tuple:
         for c in w.callers
     )
     pending = tuple((p["kind"], p["frame"], bool(p.get("dup"))) for p in w.pending)
-    q = tuple(sorted((e[0], str(e[2]), "done" if e[4].done() else "pending") for e in list(w.ctx._que.queue)))
+    q = tuple(sorted((e[0], str(e[-3]), "done" if e[-1].done() else "pending") for e in list(w.ctx._que.queue)))
     return (tuple(sorted(fs.items(), key=lambda kv: kv[0])), q, ready, timers, callers, pending, w.connected, w.paused, w.fail_next_write, len(w.writes) if len(w.writes) < 12 else 12, tuple(sorted(w.foreign_done)))
 
 
